@@ -470,9 +470,15 @@ func (m *Manager) addTCPConnection(allocation *Allocation, conn net.Conn) (proto
 	tcpConn := &tcpConnection{conn, atomic.Bool{}, nil}
 	allocation.tcpConnections[connectionID] = tcpConn
 	tcpConn.bindTimer = time.AfterFunc(m.tcpConnectionBindTimeout, func() {
+		// GetTCPConnection marks the connection bound under the lock: look at the flag under
+		// the lock too, or a ConnectionBind that gets in between the check and the removal
+		// is answered with success and has its connection closed under it.
+		m.lock.Lock()
+		defer m.lock.Unlock()
+
 		if !tcpConn.isBound.Load() {
 			m.log.Warnf("Removing TCP Connection that was never bound %v %v", connectionID, allocation.fiveTuple)
-			allocation.RemoveTCPConnection(m, connectionID)
+			allocation.removeTCPConnection(connectionID)
 		}
 	})
 
